@@ -139,4 +139,9 @@ theorem text_TraefikOidc_VerifyJWTSignatureAndClaims_ok : Oidc.Shapes.Text_Traef
 /-! further obligations against the regenerated program text (`Oidc/Shapes.lean`): constructor wiring and URL builders -/
 theorem text_New_ok : Oidc.Shapes.Text_New := by unfold Oidc.Shapes.Text_New; rfl
 
+
+/-! ## Program text of the helpers these theorems also rest on (constructors, accessors, token endpoint, configuration) -/
+theorem text_createStringMap_ok : Oidc.Shapes.Text_createStringMap := by unfold Oidc.Shapes.Text_createStringMap; rfl
+theorem text_Config_Validate_ok : Oidc.Shapes.Text_Config_Validate := by unfold Oidc.Shapes.Text_Config_Validate; rfl
+
 end Oidc.Props.C01
